@@ -7,8 +7,8 @@ using namespace datasketches;
 namespace vf {
 
 struct KllFam {
-  typedef kll_sketch<float> SK;
-  static const char* name() { return "kll"; }
+  typedef kll_sketch<c08::Item> SK;
+  static const char* name() { static const std::string n = std::string("kll") + c08::item_tag(); return n.c_str(); }
   static SK make(int cfg) { return SK(static_cast<uint16_t>(cfg)); }
   static std::string cfg_text(int cfg) { return "k=" + std::to_string(cfg); }
   static bool allow_rt() { return false; }
